@@ -294,7 +294,19 @@ func doReplay(path string) int {
 		die2("replay file: %v", err)
 	}
 	bin := buildEngine(rf.Engine, false)
-	res, _, _, _, stderr, timedOut := runWorker(bin, kit.Job{Mode: "replay", Replay: path}, time.Now().Add(20*time.Minute), 1)
+	var env []string
+	if rf.Violation != nil && rf.Violation.Class == "hang" {
+		env = append(env, "VERIF_RUN_TIMEOUT_S=150")
+	}
+	res, _, _, _, stderr, timedOut := runWorker(bin, kit.Job{Mode: "replay", Replay: path}, time.Now().Add(20*time.Minute), 1, env...)
+	if rf.Violation != nil && rf.Violation.Class == "hang" && len(res) == 0 && strings.Contains(stderr, "RUN-TIMEOUT") {
+		sig := spinningFrame(stderr)
+		fmt.Printf("replay: run exceeded the watchdog, spinning in %s (recorded %s)\n", sig, rf.Violation.Signature)
+		if sig == rf.Violation.Signature {
+			fmt.Printf("VIOLATION property=%s replay=%s\n", rf.Property, path)
+			return 1
+		}
+	}
 	if p := os.Getenv("VERIF_KEEP_STDERR"); p != "" {
 		os.WriteFile(p, []byte(stderr), 0644)
 	}
@@ -367,9 +379,11 @@ func doCheck(spec *kit.PropertySpec, tier string, runsOverride, budgetOverride, 
 	}
 	seed := baseSeed()
 	deadline := time.Now().Add(time.Duration(budgetS) * time.Second)
-	hard := deadline.Add(120 * time.Second)
+	// a run started just before the deadline may still take a while on a loaded
+	// machine; the per-run watchdog inside the worker (kit.RunOnce) fires first
+	hard := deadline.Add(260 * time.Second)
 	if tier == "thorough" {
-		hard = deadline.Add(300 * time.Second)
+		hard = deadline.Add(400 * time.Second)
 	}
 	extraEnv := []string{}
 	if race {
@@ -608,6 +622,27 @@ func doCheck(spec *kit.PropertySpec, tier string, runsOverride, budgetOverride, 
 			dump := filepath.Join(verifRoot, "replays", fmt.Sprintf("%s-hang-%d.stacks.txt", spec.ID, c.idx))
 			os.MkdirAll(filepath.Dir(dump), 0755)
 			os.WriteFile(dump, []byte(c.stderr), 0644)
+			// a goroutine that is still *running goloop code* when the watchdog fires is
+			// the code under test spinning (e.g. a decoder looping on forged bytes):
+			// for properties that exclude crashing the node that is a violation.
+			if sig := spinningFrame(c.stderr); sig != "" && spec.CrashIsViolation {
+				v := &kit.Violation{Property: spec.ID, Class: "hang", Signature: sig, Detail: "run exceeded the per-run wall-clock limit while a goroutine was executing " + sig + "; goroutine dump in " + dump}
+				path := writeReplay(spec, tier, c.profile, seed, c.seed, c.idx, nil, v, "")
+				// must reproduce from its seed in a fresh process: same spinning frame again
+				_, _, _, _, stderr2, _ := runWorker(bin, kit.Job{Mode: "replay", Replay: path}, time.Now().Add(10*time.Minute), 1, append([]string{"VERIF_RUN_TIMEOUT_S=150"}, extraEnv...)...)
+				if !strings.Contains(stderr2, "RUN-TIMEOUT") || spinningFrame(stderr2) != sig {
+					die2("run %d (profile %q, seed %d) exceeded the per-run wall-clock limit in %s but that did not reproduce from its seed; goroutine dump in %s", c.idx, c.profile, c.seed, sig, dump)
+				}
+				if k := matchKnown(known, spec.ID, v); k != nil {
+					lines = append(lines, fmt.Sprintf("KNOWN-FINDING: property=%s %s", spec.ID, k.What))
+					continue
+				}
+				fmt.Printf("violation hang|%s\n  %s\n", sig, v.Detail)
+				lines = append(lines, fmt.Sprintf("VIOLATION property=%s replay=%s", spec.ID, path))
+				nViol++
+				exit = 1
+				continue
+			}
 			die2("run %d (profile %q, seed %d) exceeded the per-run wall-clock limit: simulator hang; goroutine dump in %s", c.idx, c.profile, c.seed, dump)
 		}
 		if race && strings.Contains(c.stderr, "WARNING: DATA RACE") {
@@ -818,6 +853,32 @@ func firstLines(s string, n int) string {
 		ls = ls[:n]
 	}
 	return strings.Join(ls, "\n")
+}
+
+// spinningFrame returns the innermost goloop frame of a goroutine that was
+// running or runnable inside a synctest bubble when the run watchdog fired.
+func spinningFrame(dump string) string {
+	for _, blk := range strings.Split(dump, "\n\n") {
+		lines := strings.Split(blk, "\n")
+		if len(lines) < 2 || !strings.HasPrefix(lines[0], "goroutine ") {
+			continue
+		}
+		if !(strings.Contains(lines[0], "[runnable") || strings.Contains(lines[0], "[running")) || !strings.Contains(lines[0], "synctest bubble") {
+			continue
+		}
+		for _, l := range lines[1:] {
+			if strings.HasPrefix(l, "github.com/icon-project/goloop/") {
+				if p := strings.LastIndex(l, "("); p > 0 {
+					l = l[:p]
+				}
+				return strings.TrimPrefix(l, "github.com/icon-project/goloop/")
+			}
+			if strings.HasPrefix(l, "verif/sim/") {
+				break // harness code on top: not the code under test
+			}
+		}
+	}
+	return ""
 }
 
 func raceSignature(s string) string {
